@@ -22,6 +22,14 @@ static inline unsigned long verif_in(const char *name)
 #define VERIF_REQUIRE(c)	do { if (!(c)) { printf("REPLAY-SKIP: precondition %s does not hold for these inputs\n", #c); exit(3); } } while (0)
 #define VERIF_COVER(c)		do { } while (0)
 #define __CPROVER_assert(c, msg) VERIF_ASSERT(c, msg)
+/* native replay: unconstrained ghost values become a recognisable poison pattern */
+static inline unsigned long nondet_ulong(void) { return 0xdeadbeefcafe0001UL; }
+static inline long nondet_long(void) { return (long) 0xdeadbeefcafe0001UL; }
+static inline unsigned int nondet_uint(void) { return 0xdeadbeefU; }
+static inline int nondet_int(void) { return (int) 0xdeadbeefU; }
+static inline unsigned char nondet_uchar(void) { return 0xa5; }
+static inline _Bool nondet_bool(void) { return 1; }
+static inline void *nondet_ptr(void) { return (void *) 0xdeadbeefcafe0000UL; }
 #else
 unsigned long nondet_ulong(void);
 long nondet_long(void);
